@@ -177,6 +177,15 @@ var mapKinds = []mapKeyKind{
 	{"uint8", "uint8", []string{"0", "1", "200", "255"}, func(s string) string { return s }},
 }
 
+// element types of the missing-key probe: a non-zero value, the zero literal and what println shows for zero
+var c10Elems = []struct{ typ, val, zeroLit, zeroOut string }{
+	{"int", "5", "0", "0"},
+	{"string", `"s"`, `""`, ""},
+	{"bool", "true", "false", "false"},
+	{"float64", "2.5", "0.0", "0"},
+	{"uint8", "9", "0", "0"},
+}
+
 type sOp struct {
 	kind string // set del get getok len range
 	k    string
@@ -389,7 +398,26 @@ func cmdC10Script(seed uint64, n int, dir string) {
 			fmt.Fprintf(&sb, "m := map[%s]int{%s: 7}\n", kind.goType, kind.keys[0])
 		}
 		uniq := 0
-		emitSOps(&sb, ops, "", &uniq)
+		// placement: the map is a package-level variable (GET/SET), a local of a function, or a parameter
+		// (the peephole-fused FASTGET/FASTSET/FASTGETINT/FASTSETINT forms exist only for locals)
+		place := r.intn(3)
+		switch place {
+		case 0:
+			emitSOps(&sb, ops, "", &uniq)
+		case 1:
+			decl := sb.String()
+			sb.Reset()
+			sb.WriteString("func run() {\n\t" + strings.ReplaceAll(strings.TrimRight(decl, "\n"), "\n", "\n\t") + "\n")
+			emitSOps(&sb, ops, "\t", &uniq)
+			sb.WriteString("}\nrun()\n")
+		default:
+			decl := sb.String()
+			sb.Reset()
+			fmt.Fprintf(&sb, "func run(m map[%s]int) {\n", kind.goType)
+			emitSOps(&sb, ops, "\t", &uniq)
+			sb.WriteString("}\n" + decl + "run(m)\n")
+		}
+		st.Histogram[[]string{"map is a package-level variable", "map is a local of a function", "map is a parameter"}[place]]++
 		src := sb.String()
 		var out bytes.Buffer
 		vm := g.New(g.WithStdout(&out))
@@ -416,6 +444,34 @@ func cmdC10Script(seed uint64, n int, dir string) {
 		st.add("script key="+kind.name, fmt.Sprintf("key=%s ops=%d lines=%d", kind.name, len(ops), len(lines)))
 		if exp != "" {
 			st.mismatchG("script|"+kind.name+"|"+exp, c10Mismatch{Kind: "script", KeyType: kind.name, Src: src, Line: pos, Expected: exp, Got: got, Pattern: strings.Join(pattern, " ")})
+		}
+	}
+	// missing keys give the zero value of the ELEMENT type: every element type x key type x placement, literal
+	// and variable keys, never-inserted and deleted keys; the expected lines are what Go prints
+	for _, el := range c10Elems {
+		for _, kind := range mapKinds {
+			for place := 0; place < 3; place++ {
+				k0, k1 := kind.keys[0], kind.keys[1]
+				body := fmt.Sprintf("m[%s] = %s\ndelete(m, %s)\nprintln(\"a\", m[%s])\nprintln(\"b\", m[%s])\nk := %s\nprintln(\"c\", m[k])\nprintln(\"d\", m[%s] == %s, len(m))\n", k0, el.val, k0, k0, k1, k1, k1, el.zeroLit)
+				decl := fmt.Sprintf("m := map[%s]%s{}\n", kind.goType, el.typ)
+				var src string
+				switch place {
+				case 0:
+					src = decl + body
+				case 1:
+					src = "func run() {\n" + decl + body + "}\nrun()\n"
+				default:
+					src = fmt.Sprintf("func run(m map[%s]%s) {\n%s}\n%srun(m)\n", kind.goType, el.typ, body, decl)
+				}
+				exp := fmt.Sprintf("a %s\nb %s\nc %s\nd true 0\n", el.zeroOut, el.zeroOut, el.zeroOut)
+				var out bytes.Buffer
+				vm := g.New(g.WithStdout(&out))
+				_, err := vm.Eval(fstest.MapFS{}, "in", src)
+				st.add("script missing-key zero elem="+el.typ, src)
+				if err != nil || out.String() != exp {
+					st.mismatchG("script|zero|"+el.typ+"|"+kind.name, c10Mismatch{Kind: "script-zero", KeyType: kind.name, Src: src, Expected: exp, Got: out.String() + fmt.Sprint(err)})
+				}
+			}
 		}
 	}
 	// float keys: +0 and -0 are one key
